@@ -1717,6 +1717,10 @@ def path_atoms_fresh(body, edges, blocks):
                         killed_l.add(pl['l'])
                     if s['rv'].get('k') == 'ref' and s['rv'].get('mut') and not s['rv']['place']['p']:
                         killed_l.add(s['rv']['place']['l'])
+                    # a mutable re-borrow of what a `&mut` PARAMETER points to (`curr_l.push(..)` on `curr_l: &mut Vec<_>`): what was
+                    # known about that parameter's pointee is stale
+                    if s['rv'].get('k') == 'ref' and s['rv'].get('mut') and s['rv']['place']['p'] == ['deref'] and 1 <= s['rv']['place']['l'] <= body.arg_count:
+                        killed_l.add(('P', s['rv']['place']['l'] - 1))
             t = body.term(b)
             if t and t['k'] == 'call':
                 if not t['dest']['p']:
@@ -1736,6 +1740,8 @@ def path_atoms_fresh(body, edges, blocks):
                             if isinstance(y, tuple) and y:
                                 if y[0] == 'var' and len(y) > 2:
                                     vs.add(y[2])
+                                elif y[0] == 'param' and len(y) > 2 and y[1] == body.name:
+                                    vs.add(('P', y[2]))
                                 elif y[0] == 'field' and len(y) == 4:
                                     fs.add((y[2], y[3]))
                     atoms.append((a, vs, fs))
